@@ -11,6 +11,7 @@ the function), so the oracle is "raises an error whose type is in the set".
 from __future__ import annotations
 
 import operator
+from fractions import Fraction
 from functools import reduce
 
 import numpy as np
@@ -63,6 +64,8 @@ def _pow(b, x):
             raise RefSkip("exponent too large")
     elif isinstance(x, (float,)) and abs(x) > MAX_EXP:
         raise RefSkip("exponent too large")
+    elif isinstance(x, Fraction) and x.denominator == 1 and abs(x.numerator) > MAX_EXP:
+        raise RefSkip("exponent too large")     # Fraction(n, 1) exponents are integer powers
     return b ** x
 
 
